@@ -81,8 +81,8 @@ class VttCue:
     return self._end
 
   def set_line(self, line: int):
-    """Sets the WebVTT line cue setting (in whole percent)"""
-    self._line = line
+    """Sets the WebVTT line cue setting (in whole percent, limited to the range 0..100 of a WebVTT percentage)"""
+    self._line = max(0, min(100, line))
 
   def get_line(self) -> Optional[int]:
     """Return the WebVTT line cue setting (in whole percent)"""
